@@ -46,7 +46,7 @@ CONSTANTS Layouts,        \* subset of {"csr", "bcsr", "pdiag", "pfull"}
           Oms,            \* subset of 1..3: omega = 1, 1/2, 3/2
           Iters,          \* set of iteration / step counts
           FiltSel,        \* subset of {"none", "v", "p", "vp"}
-          Pals,           \* value palettes 1..3 (the update switches to the next one)
+          Pals,           \* value palettes 1..3
           APat,           \* "diag": A couples no two nodes; "all": every off-diagonal node pattern
           MinNz, MaxNz    \* bounds on the number of pattern entries of B plus D
 
@@ -74,8 +74,6 @@ NodeOf(i) == NodeOfL(lay, n, i)
 CompOf(i) == CompOfL(lay, n, i)
 
 \* ---- values -------------------------------------------------------------------------------------------------------
-NextPal(pl) == (pl % 3) + 1
-PalOf(c) == IF c = 1 THEN pal ELSE NextPal(pal)
 OffPal == <<D(1), D(-1), H(1, 1), D(2), H(-1, 1), D(-2), D(1)>>
 DiagPal == <<D(2), D(1), D(4), D(2), H(1, 1)>>
 \* A: power-of-two main diagonal; the components of one node are coupled for BCSR / PowerFull (not for PowerDiag);
@@ -96,11 +94,15 @@ DVal(q, j, pl) ==
   IF <<q, NodeOf(j)>> \notin PD THEN Zero
   ELSE IF CompOf(j) = 1 THEN OffPal[((q * 2 + NodeOf(j) * 3 + pl * 4) % 7) + 1]
   ELSE <<D(-1), D(1), Zero, D(2)>>[((NodeOf(j) * 3 + q + pl) % 4) + 1]
-\* the saddle-point matrix in flat numbering
-MOf(c) == LET pl == PalOf(c) IN
-  MatOf(NN, NN, LAMBDA i, j : IF i <= NV /\ j <= NV THEN AVal(i, j, pl)
-                              ELSE IF i <= NV THEN BVal(i, j - NV, pl)
-                              ELSE IF j <= NV THEN DVal(i - NV, j, pl) ELSE Zero)
+\* the saddle-point matrix in flat numbering.  Value set 1 takes the palette; value set 2 (after the update) is
+\*    A2 = 4 A1,  B2 = 2 B1,  D2 = 8 D1,   i.e.  M2 = R M1 C  with  R = diag(I, 2 I), C = diag(4 I, 2 I):
+\* every diagonal entry met during the elimination of any local system is multiplied by 4, so the pivot order and the
+\* power-of-two property of the pivots carry over - a system in the exact domain stays there after the update, while all three
+\* blocks change and  M2^-1 = C^-1 M1^-1 R^-1  is not a multiple of M1^-1.
+MOf(c) == LET pl == pal IN
+  MatOf(NN, NN, LAMBDA i, j : IF i <= NV /\ j <= NV THEN (IF c = 1 THEN AVal(i, j, pl) ELSE Mul(D(4), AVal(i, j, pl)))
+                              ELSE IF i <= NV THEN (IF c = 1 THEN BVal(i, j - NV, pl) ELSE Mul(D(2), BVal(i, j - NV, pl)))
+                              ELSE IF j <= NV THEN (IF c = 1 THEN DVal(i - NV, j, pl) ELSE Mul(D(8), DVal(i - NV, j, pl))) ELSE Zero)
 
 \* ---- blocks ---------------------------------------------------------------------------------------------------------
 Cnt(i, q) == Cardinality({j \in 1..n : <<i, j>> \in PD /\ <<j, q>> \in PB})
@@ -136,9 +138,9 @@ FactorFull(Mx, b) == LET L == LocalMat(Mx, idx[b])  r == Inverse(Len(idx[b]), L)
 FactorDiag(Mx, b) ==
   LET ix == idx[b]  nv == NvOf(b)  np == NpOf(b)
       ainv == Vec(nv, LAMBDA a : IF IsPow2(Mx[ix[a]][ix[a]]) THEN Div(One, Mx[ix[a]][ix[a]]) ELSE Inexact)
-      dt == MatOf(np, nv, LAMBDA i, a : Mul(Mx[ix[nv + i]][ix[a]], ainv[a]))        \* D a^-1
+      dt == MatOf(np, nv, LAMBDA i, a : FMul(Mx[ix[nv + i]][ix[a]], ainv[a]))        \* D a^-1
       bl == MatOf(nv, np, LAMBDA a, j : Mx[ix[a]][ix[nv + j]])
-      S == MatOf(np, np, LAMBDA i, j : Neg(DSumTo(LAMBDA a : Mul(dt[i][a], bl[a][j]), nv)))
+      S == MatOf(np, np, LAMBDA i, j : Neg(FSumTo(LAMBDA a : FMul(dt[i][a], bl[a][j]), nv)))
       r == Inverse(np, S)
   \* an empty block (block variants: the pressure dof that opens it has a structurally zero Schur complement entry, no dof
   \* reaches the maximal degree) counts as singular like the 1 x 1 zero Schur complement of the nodal variant
@@ -150,9 +152,9 @@ Factor(Mx) == Vec(NB, LAMBDA b : IF IsFull(kind) THEN FactorFull(Mx, b) ELSE Fac
 LocalSolve(F, b, r) ==
   IF IsFull(kind) THEN RMatVec(Len(r), Len(r), F[b].inv, r)
   ELSE LET nv == NvOf(b)  np == NpOf(b)  fb == F[b]
-           g == Vec(np, LAMBDA i : Sub(r[nv + i], DSumTo(LAMBDA a : Mul(fb.dt[i][a], r[a]), nv)))
+           g == Vec(np, LAMBDA i : FSub(r[nv + i], FSumTo(LAMBDA a : FMul(fb.dt[i][a], r[a]), nv)))
            p == RMatVec(np, np, fb.sinv, g)
-           v == Vec(nv, LAMBDA a : Mul(fb.ainv[a], Sub(r[a], DSumTo(LAMBDA j : Mul(fb.bl[a][j], p[j]), np))))
+           v == Vec(nv, LAMBDA a : FMul(fb.ainv[a], FSub(r[a], FSumTo(LAMBDA j : FMul(fb.bl[a][j], p[j]), np))))
        IN v \o p
 
 \* ---- filters: UnitFilter on whole velocity nodes / on pressure dofs ----------------------------------------------------
@@ -175,19 +177,20 @@ Combos == <<<<1, 1>>, <<2, 2>>>>
 NC == Len(Combos)
 Tab(F(_, _)) == Vec(NC, LAMBDA cb : Vec(NT, LAMBDA t : F(cb, t)))
 Residual(Mx, f, x) == RVSub(f, RMatVec(NN, NN, Mx, x))
+ResidualAt(Mx, f, x, ix) == Vec(Len(ix), LAMBDA a : FSub(f[ix[a]], FSumTo(LAMBDA j : FMul(Mx[ix[a]][j], x[j]), NN)))
 Gather(v, ix) == Vec(Len(ix), LAMBDA a : v[ix[a]])
 \* x with  w * c  added at the indices ix
-ScatterAdd(x, ix, w, c) == Vec(Len(x), LAMBDA i : IF InIdx(ix, i) THEN Add(x[i], Mul(w, c[PosIn(ix, i)])) ELSE x[i])
+ScatterAdd(x, ix, w, c) == Vec(Len(x), LAMBDA i : IF InIdx(ix, i) THEN FAdd(x[i], FMul(w, c[PosIn(ix, i)])) ELSE x[i])
 
 \* ---- AmaVanka: the assembled matrix -------------------------------------------------------------------------------------
 MacroActive(F, b) == kind = "ama" \/ F[b].st = "ok"
 ActiveCount(F, i) == Cardinality({b \in 1..NB : MacroActive(F, b) /\ InIdx(idx[b], i)})
 AmaRaw(F, i, j) ==       \* sum over the (regular) macros containing i and j of the entry of the local inverse
-  DSumTo(LAMBDA b : IF MacroActive(F, b) /\ InIdx(idx[b], i) /\ InIdx(idx[b], j)
+  FSumTo(LAMBDA b : IF MacroActive(F, b) /\ InIdx(idx[b], i) /\ InIdx(idx[b], j)
                     THEN F[b].inv[PosIn(idx[b], i)][PosIn(idx[b], j)] ELSE Zero, NB)
 AmaMatrix(F) == MatOf(NN, NN, LAMBDA i, j :
   IF ActiveCount(F, i) = 0 THEN (IF i = j THEN One ELSE Zero)
-  ELSE Mul(AmaRaw(F, i, j), Div(Omega(om), D(ActiveCount(F, i)))))
+  ELSE FMul(AmaRaw(F, i, j), Div(Omega(om), D(ActiveCount(F, i)))))
 
 \* the domain of a value set: 0 = outside, 1 = regular, 2 = init_numeric must throw VankaFactorError
 DomainOf(F) ==
@@ -210,7 +213,7 @@ Init ==
   /\ (IsAma(kind) => lay = "bcsr")
   \* Vanka reads the row pointer arrays of D (and of B for the block variants) in init_symbolic, and asserts non-empty BCSR
   \* matrices: D (and B) must have at least one stored entry
-  /\ (~IsAma(kind) => PD # {} /\ (PB # {} \/ (~IsBlock(kind) /\ lay # "bcsr")))
+  /\ (~IsAma(kind) => PD # {} /\ (IF PB = {} THEN ~IsBlock(kind) /\ lay # "bcsr" ELSE TRUE))
   /\ idx = Vec(Len(PSets), LAMBDA b : IdxOfP(PSets[b]))
   /\ nvs = Vec(Len(PSets), LAMBDA b : NvOfP(PSets[b]))
   /\ cnt = Vec(NN, LAMBDA i : Cardinality({b \in 1..Len(idx) : InIdx(idx[b], i)}))
@@ -229,16 +232,16 @@ Init ==
   /\ it = 1 /\ k = 1 /\ X = ZeroTab /\ Tt = ZeroTab /\ lastr = <<>>
 
 \* defect the additive variants distribute in iteration `it`
-AddDefect(cb, t) == IF it = 1 THEN tests[t] ELSE Residual(mats[Combos[cb][2]], tests[t], X[cb][t])
+AddDefectAt(cb, t, ix) == IF it = 1 THEN Gather(tests[t], ix) ELSE ResidualAt(mats[Combos[cb][2]], tests[t], X[cb][t], ix)
 
 \* one block of the sweep (Vanka)
 BlockStep ==
   /\ pc = "sweep" /\ ~IsAma(kind) /\ k <= NB
   /\ LET ix == idx[k] IN
        IF IsAdd(kind)
-       THEN /\ Tt' = Tab(LAMBDA cb, t : ScatterAdd(Tt[cb][t], ix, Omega(om), LocalSolve(fac[Combos[cb][1]], k, Gather(AddDefect(cb, t), ix))))
+       THEN /\ Tt' = Tab(LAMBDA cb, t : ScatterAdd(Tt[cb][t], ix, Omega(om), LocalSolve(fac[Combos[cb][1]], k, AddDefectAt(cb, t, ix))))
             /\ UNCHANGED <<X, lastr>>
-       ELSE LET R == Tab(LAMBDA cb, t : Gather(Residual(mats[Combos[cb][2]], tests[t], X[cb][t]), ix)) IN
+       ELSE LET R == Tab(LAMBDA cb, t : ResidualAt(mats[Combos[cb][2]], tests[t], X[cb][t], ix)) IN
             /\ X' = Tab(LAMBDA cb, t : ScatterAdd(X[cb][t], ix, Omega(om), LocalSolve(fac[Combos[cb][1]], k, R[cb][t])))
             /\ lastr' = R /\ UNCHANGED Tt
   /\ k' = k + 1 /\ UNCHANGED <<input, derived, pc, it>>
@@ -249,7 +252,7 @@ EndIter ==
   /\ X' = Tab(LAMBDA cb, t :
              IF IsAdd(kind)
              THEN Filt(Vec(NN, LAMBDA i : IF cnt[i] = 0 THEN X[cb][t][i]
-                                            ELSE Add(X[cb][t][i], Mul(Tt[cb][t][i], Div(One, D(cnt[i]))))))
+                                            ELSE FAdd(X[cb][t][i], FMul(Tt[cb][t][i], Div(One, D(cnt[i]))))))
              ELSE Filt(X[cb][t]))
   /\ Tt' = ZeroTab /\ lastr' = <<>>
   /\ IF it < iters THEN it' = it + 1 /\ k' = 1 /\ pc' = pc ELSE pc' = "done" /\ UNCHANGED <<it, k>>
